@@ -90,7 +90,7 @@ func c18Template(r *R) string {
 	n := r.Range(2, 7)
 	dump := func(e string) string { return "\x01{{ " + e + "|json_encode }}\x02" }
 	for i := 0; i < n; i++ {
-		switch r.N(22) {
+		switch r.N(23) {
 		case 0, 1:
 			l, f := listAndFilter(r)
 			sb.WriteString("{{ " + l + "|" + f + "|json_encode }};")
@@ -152,10 +152,20 @@ func c18Template(r *R) string {
 			sb.WriteString("{% set " + tgt + " = " + pick(r, []string{"'w'", "[1]", "n1"}) + " %}{{ m1.inner|json_encode }}{{ " + tgt + "|default('-') }};")
 		case 19:
 			// a value whose own methods would consume it if the engine called them (io.WriterTo, io.Reader)
-			sb.WriteString("{{ " + pick(r, []string{"buf", "buf", "buf|upper", "buf|length", "buf|default('d')", "buf ~ '!'", "m1.stream"}) + " }};")
+			sb.WriteString("{{ " + pick(r, []string{"buf", "buf", "buf|upper", "buf|trim", "buf|default('d')", "buf ~ '!'", "m1.stream"}) + " }};")
 		case 20:
 			// the caller's variables cross into a sandboxed include (policy installed): among them Go callables
 			sb.WriteString("{% include 'part' " + pick(r, []string{"sandboxed", "with {'s1': 'sb'} sandboxed", "with {'m1': svc} sandboxed"}) + " %}{{ svc.name }}{{ svc.handlers.label }};")
+		case 22:
+			// typed containers: slices of struct values (whose inner slices and maps are still the caller's), maps of
+			// slices, a pointer to a pointer, a typed nil in an interface
+			sb.WriteString(pick(r, []string{
+				"{% for q in people %}{{ q.Name }}{{ q.Tags|sort|join(',') }}{{ q.Meta|merge({'x': 1})|keys|join(',') }}{% endfor %};",
+				"{{ people|first|json_encode }}{{ people|reverse|first|json_encode }}{{ people|slice(0, 1)|json_encode }}{{ people|length }};",
+				"{% set q = people|last %}{{ q.Tags|reverse|first }}{{ q.Tags|sort|first }}{{ q.Tags|slice(1)|join }};",
+				"{{ mos.a|sort|join(',') }}{{ mos.a|reverse|first }}{{ mos.b|slice(0, 1)|json_encode }}{{ mos|keys|join(',') }}{% for k, l in mos %}{{ l|sort|first }}{% endfor %};",
+				"{{ pp2.Name }}{{ pp2.Tags|sort|join(',') }}{{ inil.Name|default('nil') }}{{ inil is null ? 'n' : 'p' }}{{ inil|default('d') }};",
+			}))
 		default:
 			sb.WriteString("{% do " + "n1 + 1 %}{{ pp.Inner.Name }}{{ pp.Greeting }}{{ l2|first|json_encode }};")
 		}
@@ -177,6 +187,10 @@ func (propC18) Gen(seed uint64, ex map[string]bool) interface{} {
 		KV{"nums", &Val{T: "list", L: []*Val{i(5), i(3), i(9), i(1), i(7)}}},
 		KV{"si", &Val{T: "simap", M: []KV{{"one", i(1)}, {"two", i(2)}, {"three", i(3)}}}},
 		KV{"counters", &Val{T: "counters", L: []*Val{i(1), i(5), i(9)}}},
+		KV{"people", &Val{T: "people", L: []*Val{{T: "str", S: "zed", I: 30}, {T: "str", S: "amy", I: 20}, {T: "str", S: "bob", I: 25}}}},
+		KV{"mos", &Val{T: "mos", M: []KV{{"b", &Val{T: "ilist", L: []*Val{i(9), i(1), i(5)}}}, {"a", &Val{T: "ilist", L: []*Val{i(3), i(2), i(1)}}}}}},
+		KV{"pp2", &Val{T: "pptr", S: "deep", I: 4}},
+		KV{"inil", &Val{T: "inil"}},
 		KV{"buf", &Val{T: "buffer", S: "buffered <text>"}},
 		KV{"svc", &Val{T: "map", M: []KV{{"name", s("svc")}, {"fn", &Val{T: "func", S: "called"}}, {"handlers", &Val{T: "map", M: []KV{{"label", s("L")}, {"h", &Val{T: "func", S: "h-called"}}}}}}}},
 		KV{"hold", &Val{T: "holder", S: "bare"}},
